@@ -786,6 +786,12 @@ LAW(P1_distribution, RC, 6000, 200000, 150, "compound distribution (Invariant / 
   if (ncat < 1 || ncat > 8) throw vf::Skip();   // quantifier: 1..8 classes
   vector<double> cats = d->getCategories(), probs = d->getProbabilities();
   for (double x : cats) if (!std::isfinite(x)) throw vf::Skip();
+  // parameters are written with 12 decimals: 3-digit parameters come back exactly, any other parameter within 5e-13.
+  // Simple: values / probabilities are written with 6 decimals and the reader re-reads its parameters with 6 significant digits.
+  const double tol = f.simple ? 1e-5 : 1e-9;
+  const char* tn = f.simple ? "1e-5 (Simple)" : f.fullPrec ? "1e-9 (full-precision parameters)" : "1e-9 (3-digit parameters)";
+  // classes that the written precision cannot tell apart may merge when read back: not a regular input
+  for (size_t i = 0; i + 1 < ncat; ++i) if (std::abs(cats[i + 1] - cats[i]) <= 10 * tol * max(1.0, std::abs(cats[i]))) throw vf::Skip();
   ostringstream os; map<string, string> aliases; vector<string> written;
   { StlOutputStreamWrapper out(&os); BppODiscreteDistributionFormat w(false); w.writeDiscreteDistribution(*d, out, aliases, written); }
   const string text = os.str();
@@ -801,10 +807,6 @@ LAW(P1_distribution, RC, 6000, 200000, 150, "compound distribution (Invariant / 
   CHECK(r->getName() == d->getName(), "read back a " << r->getName() << " from " << q(text));
   CHECK(r->getNumberOfCategories() == ncat, "read back " << r->getNumberOfCategories() << " classes instead of " << ncat << " from " << q(text));
   vector<double> cats2 = r->getCategories(), probs2 = r->getProbabilities();
-  // parameters are written with 12 decimals: 3-digit parameters come back exactly, any other parameter within 5e-13.
-  // Simple: values / probabilities are written with 6 decimals and the reader re-reads its parameters with 6 significant digits.
-  const double tol = f.simple ? 1e-5 : 1e-9;
-  const char* tn = f.simple ? "1e-5 (Simple)" : f.fullPrec ? "1e-9 (full-precision parameters)" : "1e-9 (3-digit parameters)";
   for (size_t i = 0; i < ncat; ++i) {
     double ev = std::abs(cats[i] - cats2[i]) / max(1.0, std::abs(cats[i])), ep = std::abs(probs[i] - probs2[i]);
     c.observe(string("class value error / ") + tn, ev / tol);
